@@ -35,6 +35,8 @@ class Stack(ElementBase):
         - get_slice(0, i) will return 15 operations (5x3, all operations with the same x-coordinate),
         - get_slice(1, i) will return 6 operations (2x3, all with the same y-coordinate),
         - get_slice(2, i) will return 10 operations (2x5, all with the same z-coordinate)."""
+        if axis not in (0, 1, 2):
+            raise ValueError(f"Axis must be 0, 1 or 2, got {axis}")
 
         if axis == 2:
             return self.shapes[index].operations
